@@ -112,9 +112,12 @@ def _hist_job(job):
 
 # ---------------------------------------------------------------------------------------------------
 SKELETONS = [(['**kern', '**text', '**kern'], ['k', 'b', 'd', 'd', 'S0', 'd', 'J0', 'b', 'd', 'b']),
-             (['**kern'], ['k', 'b', 'd', 'd', 'b', 'd']),
+             (['**kern'], ['k', 'b', 'd', 'g', 'd', 'b', 'g', 'd']),
              (['**root', '**dynam', '**kern'], ['k', 'b', 'd', 'c', 'd', 'b']),
              (['**harm', '**kern', '**mxhm'], ['i', 'b', 'd', 'S1', 'd', 'J1', 'b'])]
+
+
+PRE = {1: ('!!!COM: Bach', '!!plain'), 3: ('!!!OTL: t',)}
 
 
 def positions(m):
@@ -140,8 +143,8 @@ def damaged(headers, seq, seed, places, blank_before=None, pre=()):
 
 def check_places(acc, sk, seed, places, blank_before=None):
     headers, seq = SKELETONS[sk]
-    m0 = X.seq_model(headers, seq, seed, cap=6)
-    m, exp_err = damaged(headers, seq, seed, places)
+    m0 = X.seq_model(headers, seq, seed, cap=6, pre=PRE.get(sk, ()))
+    m, exp_err = damaged(headers, seq, seed, places, pre=PRE.get(sk, ()))
     lines = m.lines()
     shift = {}
     if blank_before is not None:
@@ -211,7 +214,7 @@ def _doc_job(job):
     sk, seed, mode, lo, hi = job
     acc = Acc()
     headers, seq = SKELETONS[sk]
-    m0 = X.seq_model(headers, seq, seed, cap=6)
+    m0 = X.seq_model(headers, seq, seed, cap=6, pre=PRE.get(sk, ()))
     pos = positions(m0)
     if mode == 'single':
         for bi in range(lo, hi):
@@ -222,7 +225,8 @@ def _doc_job(job):
         pairs = list(itertools.combinations(pos, 2))[lo:hi]
         for k, (p, q) in enumerate(pairs):
             grp = TRAIL if (k + lo) % 3 == 2 else NONTRAIL     # both cells from the same class, so that a case has one class
-            check_places(acc, sk, seed, [(p, grp[(k + lo) % len(grp)]), (q, grp[(k + lo + 5) % len(grp)])])
+            same = (k + lo) % 4 == 1      # the same malformed text in two cells
+            check_places(acc, sk, seed, [(p, grp[(k + lo) % len(grp)]), (q, grp[(k + lo + (0 if same else 5)) % len(grp)])])
     elif mode == 'triples':
         triples = list(itertools.combinations(pos, 3))[lo:hi]
         for k, ps in enumerate(triples):
@@ -252,7 +256,7 @@ def run(ctx):
     ctx.pmap(_hist_job, [(h, depth) for h in IMPORTERS], chunksize=1)
     jobs = []
     for sk in range(len(SKELETONS)):
-        m0 = X.seq_model(*SKELETONS[sk], seed, cap=6)
+        m0 = X.seq_model(*SKELETONS[sk], seed, cap=6, pre=PRE.get(sk, ()))
         npos = len(positions(m0))
         for bi in range(0, len(BADS), 3):
             jobs.append((sk, seed, 'single', bi, min(bi + 3, len(BADS))))
